@@ -80,7 +80,8 @@ type frame struct {
 	caller           *frame
 	fn               *ssa.Function
 	block, prevBlock *ssa.BasicBlock
-	env              map[ssa.Value]value // dynamic values of SSA variables
+	env              []value // dynamic values of SSA variables (indexed by fnInfo)
+	info             *fnInfo
 	locals           []value
 	defers           *deferred
 	result           value
@@ -103,11 +104,53 @@ func (fr *frame) get(key ssa.Value) value {
 	case *ssa.Global:
 		return fr.i.global(key)
 	}
-	if r, ok := fr.env[key]; ok {
-		return r
+	if n, ok := fr.info.idx[key]; ok {
+		return fr.env[n]
 	}
 	panic(fmt.Sprintf("get: no value for %T: %v", key, key.Name()))
 }
+
+// fnInfo numbers the SSA values of a function so that a frame's
+// environment is a slice instead of a map.
+type fnInfo struct {
+	idx map[ssa.Value]int
+	n   int
+}
+
+var fnInfos sync.Map
+
+func infoOf(fn *ssa.Function) *fnInfo {
+	if v, ok := fnInfos.Load(fn); ok {
+		return v.(*fnInfo)
+	}
+	in := &fnInfo{idx: map[ssa.Value]int{}}
+	add := func(v ssa.Value) {
+		if _, ok := in.idx[v]; !ok {
+			in.idx[v] = in.n
+			in.n++
+		}
+	}
+	for _, p := range fn.Params {
+		add(p)
+	}
+	for _, fv := range fn.FreeVars {
+		add(fv)
+	}
+	for _, l := range fn.Locals {
+		add(l)
+	}
+	for _, b := range fn.Blocks {
+		for _, ins := range b.Instrs {
+			if v, ok := ins.(ssa.Value); ok {
+				add(v)
+			}
+		}
+	}
+	v, _ := fnInfos.LoadOrStore(fn, in)
+	return v.(*fnInfo)
+}
+
+func (fr *frame) set(k ssa.Value, v value) { fr.env[fr.info.idx[k]] = v }
 
 // global returns the address of a package-level variable, materialising
 // it (zero value) on first use.
@@ -165,35 +208,35 @@ func visitInstr(fr *frame, instr ssa.Instruction) continuation {
 		// no-op
 
 	case *ssa.UnOp:
-		fr.env[instr] = unop(fr, instr, fr.get(instr.X))
+		fr.env[fr.info.idx[instr]] = unop(fr, instr, fr.get(instr.X))
 
 	case *ssa.BinOp:
-		fr.env[instr] = binop(fr, instr.Op, instr.X.Type(), fr.get(instr.X), fr.get(instr.Y))
+		fr.env[fr.info.idx[instr]] = binop(fr, instr.Op, instr.X.Type(), fr.get(instr.X), fr.get(instr.Y))
 
 	case *ssa.Call:
 		fn, args := prepareCall(fr, &instr.Call)
-		fr.env[instr] = call(fr.i, fr, instr.Pos(), fn, args)
+		fr.env[fr.info.idx[instr]] = call(fr.i, fr, instr.Pos(), fn, args)
 
 	case *ssa.ChangeInterface:
-		fr.env[instr] = fr.get(instr.X)
+		fr.env[fr.info.idx[instr]] = fr.get(instr.X)
 
 	case *ssa.ChangeType:
-		fr.env[instr] = fr.get(instr.X) // (can't fail)
+		fr.env[fr.info.idx[instr]] = fr.get(instr.X) // (can't fail)
 
 	case *ssa.Convert:
-		fr.env[instr] = conv(fr, instr.Type(), instr.X.Type(), fr.get(instr.X))
+		fr.env[fr.info.idx[instr]] = conv(fr, instr.Type(), instr.X.Type(), fr.get(instr.X))
 
 	case *ssa.SliceToArrayPointer:
-		fr.env[instr] = sliceToArrayPointer(instr.Type(), instr.X.Type(), fr.get(instr.X))
+		fr.env[fr.info.idx[instr]] = sliceToArrayPointer(instr.Type(), instr.X.Type(), fr.get(instr.X))
 
 	case *ssa.MakeInterface:
-		fr.env[instr] = iface{t: instr.X.Type(), v: fr.get(instr.X)}
+		fr.env[fr.info.idx[instr]] = iface{t: instr.X.Type(), v: fr.get(instr.X)}
 
 	case *ssa.Extract:
-		fr.env[instr] = fr.get(instr.Tuple).(tuple)[instr.Index]
+		fr.env[fr.info.idx[instr]] = fr.get(instr.Tuple).(tuple)[instr.Index]
 
 	case *ssa.Slice:
-		fr.env[instr] = slice(fr, fr.get(instr.X), fr.get(instr.Low), fr.get(instr.High), fr.get(instr.Max))
+		fr.env[fr.info.idx[instr]] = slice(fr, fr.get(instr.X), fr.get(instr.Low), fr.get(instr.High), fr.get(instr.Max))
 
 	case *ssa.Return:
 		switch len(instr.Results) {
@@ -261,17 +304,17 @@ func visitInstr(fr *frame, instr ssa.Instruction) continuation {
 		i.spawn(fr, instr.Pos(), fn, args)
 
 	case *ssa.MakeChan:
-		fr.env[instr] = i.newChannel(int(i.concInt(fr, fr.get(instr.Size))))
+		fr.env[fr.info.idx[instr]] = i.newChannel(int(i.concInt(fr, fr.get(instr.Size))))
 
 	case *ssa.Alloc:
 		var addr *value
 		if instr.Heap {
 			// new
 			addr = new(value)
-			fr.env[instr] = addr
+			fr.env[fr.info.idx[instr]] = addr
 		} else {
 			// local
-			addr = fr.env[instr].(*value)
+			addr = fr.env[fr.info.idx[instr]].(*value)
 		}
 		*addr = zero(deref(instr.Type()))
 
@@ -296,26 +339,26 @@ func visitInstr(fr *frame, instr ssa.Instruction) continuation {
 				slice[i] = zero(tElt)
 			}
 		}
-		fr.env[instr] = slice[:l]
+		fr.env[fr.info.idx[instr]] = slice[:l]
 
 	case *ssa.MakeMap:
-		fr.env[instr] = makeMap(instr.Type().Underlying().(*types.Map).Key(), 0)
+		fr.env[fr.info.idx[instr]] = makeMap(instr.Type().Underlying().(*types.Map).Key(), 0)
 
 	case *ssa.Range:
-		fr.env[instr] = rangeIter(fr, fr.get(instr.X), instr.X.Type())
+		fr.env[fr.info.idx[instr]] = rangeIter(fr, fr.get(instr.X), instr.X.Type())
 
 	case *ssa.Next:
-		fr.env[instr] = fr.get(instr.Iter).(iter).next()
+		fr.env[fr.info.idx[instr]] = fr.get(instr.Iter).(iter).next()
 
 	case *ssa.FieldAddr:
 		p := fr.get(instr.X).(*value)
 		if p == nil {
 			panic(runtimeError("invalid memory address or nil pointer dereference"))
 		}
-		fr.env[instr] = &(*p).(structure)[instr.Field]
+		fr.env[fr.info.idx[instr]] = &(*p).(structure)[instr.Field]
 
 	case *ssa.Field:
-		fr.env[instr] = fr.get(instr.X).(structure)[instr.Field]
+		fr.env[fr.info.idx[instr]] = fr.get(instr.X).(structure)[instr.Field]
 
 	case *ssa.IndexAddr:
 		x := fr.get(instr.X)
@@ -325,7 +368,7 @@ func visitInstr(fr *frame, instr ssa.Instruction) continuation {
 			if idx < 0 || idx >= int64(len(x)) {
 				panic(runtimeError(fmt.Sprintf("index out of range [%d] with length %d", idx, len(x))))
 			}
-			fr.env[instr] = &x[idx]
+			fr.env[fr.info.idx[instr]] = &x[idx]
 		case *value: // *array
 			if x == nil {
 				panic(runtimeError("invalid memory address or nil pointer dereference"))
@@ -334,7 +377,7 @@ func visitInstr(fr *frame, instr ssa.Instruction) continuation {
 			if idx < 0 || idx >= int64(len(a)) {
 				panic(runtimeError(fmt.Sprintf("index out of range [%d] with length %d", idx, len(a))))
 			}
-			fr.env[instr] = &a[idx]
+			fr.env[fr.info.idx[instr]] = &a[idx]
 		default:
 			panic(fmt.Sprintf("unexpected x type in IndexAddr: %T", x))
 		}
@@ -348,18 +391,18 @@ func visitInstr(fr *frame, instr ssa.Instruction) continuation {
 			if idx < 0 || idx >= int64(len(x)) {
 				panic(runtimeError(fmt.Sprintf("index out of range [%d] with length %d", idx, len(x))))
 			}
-			fr.env[instr] = x[idx]
+			fr.env[fr.info.idx[instr]] = x[idx]
 		case string:
 			if idx < 0 || idx >= int64(len(x)) {
 				panic(runtimeError(fmt.Sprintf("index out of range [%d] with length %d", idx, len(x))))
 			}
-			fr.env[instr] = x[idx]
+			fr.env[fr.info.idx[instr]] = x[idx]
 		default:
 			panic(fmt.Sprintf("unexpected x type in Index: %T", x))
 		}
 
 	case *ssa.Lookup:
-		fr.env[instr] = lookup(fr, instr, fr.get(instr.X), fr.get(instr.Index))
+		fr.env[fr.info.idx[instr]] = lookup(fr, instr, fr.get(instr.X), fr.get(instr.Index))
 
 	case *ssa.MapUpdate:
 		m := fr.get(instr.Map)
@@ -381,20 +424,20 @@ func visitInstr(fr *frame, instr ssa.Instruction) continuation {
 		}
 
 	case *ssa.TypeAssert:
-		fr.env[instr] = typeAssert(fr.i, instr, fr.get(instr.X).(iface))
+		fr.env[fr.info.idx[instr]] = typeAssert(fr.i, instr, fr.get(instr.X).(iface))
 
 	case *ssa.MakeClosure:
 		var bindings []value
 		for _, binding := range instr.Bindings {
 			bindings = append(bindings, fr.get(binding))
 		}
-		fr.env[instr] = &closure{instr.Fn.(*ssa.Function), bindings}
+		fr.env[fr.info.idx[instr]] = &closure{instr.Fn.(*ssa.Function), bindings}
 
 	case *ssa.Phi:
 		panic("unreachable: phis are processed at block entry")
 
 	case *ssa.Select:
-		fr.env[instr] = i.doSelect(fr, instr)
+		fr.env[fr.info.idx[instr]] = i.doSelect(fr, instr)
 
 	default:
 		panic(fmt.Sprintf("unexpected instruction: %T", instr))
@@ -508,18 +551,19 @@ func callSSA(i *interpreter, caller *frame, callpos token.Pos, fn *ssa.Function,
 
 	i.cfg.noteFunc(fn)
 
-	fr.env = make(map[ssa.Value]value)
+	fr.info = infoOf(fn)
+	fr.env = make([]value, fr.info.n)
 	fr.block = fn.Blocks[0]
 	fr.locals = make([]value, len(fn.Locals))
 	for i, l := range fn.Locals {
 		fr.locals[i] = zero(deref(l.Type()))
-		fr.env[l] = &fr.locals[i]
+		fr.env[fr.info.idx[l]] = &fr.locals[i]
 	}
 	for i, p := range fn.Params {
-		fr.env[p] = args[i]
+		fr.env[fr.info.idx[p]] = args[i]
 	}
 	for i, fv := range fn.FreeVars {
-		fr.env[fv] = env[i]
+		fr.env[fr.info.idx[fv]] = env[i]
 	}
 	for fr.block != nil {
 		runFrame(fr)
@@ -598,7 +642,7 @@ func executePhis(fr *frame) []ssa.Instruction {
 			fr.phitemps = append(fr.phitemps, fr.get(phi.Edges[predIndex]))
 		}
 		for i, phi := range phis {
-			fr.env[phi.(*ssa.Phi)] = fr.phitemps[i]
+			fr.env[fr.info.idx[phi.(*ssa.Phi)]] = fr.phitemps[i]
 		}
 	}
 	return nonPhis
